@@ -564,6 +564,7 @@ func (fr *Frame) havocLoop(li *loopInfo, phis []*ssa.Phi) {
 	for _, phi := range phis {
 		v := e.freshVal(phi.Type(), "loop_"+phi.Comment+"_"+phi.Name(), fr.pc)
 		v.NN = fr.vals[phi].NN
+		e.assumeRefsOld(v, fr.pc, fr.st.alloc) // whatever a loop-carried variable refers to exists already
 		fr.vals[phi] = v
 	}
 }
